@@ -274,6 +274,7 @@ ARENA = {
         mism=['result-kind', 'base-allocator-events', 'stats'],
         colls_x=['overflow:', 'a failed reserve', 'capacity: a failed', 'although the length would overflow', 'the crate panicked in a try_'],
         colls_mism=[' capacity '],
+        pool_x=['try-get-panicked'],
         quick_x=(160, 40),
         search_x=True,
         note='arena-level failure theorems proved; collection level: for BumpVec / FixedBumpVec / MutBumpVec(Rev) the capacity model VecCap.v is proved atomic (a failed reserve / push / extend leaves length and capacity as they were; overflowing requests are errors without an allocator call) and replayed from capacity histories with injected refusals; PARTIAL: strings and the contents after a failure are probed on the implementation only'),
@@ -507,6 +508,17 @@ def check_arena(ctx):
                         res['summary'][k] += res2['summary'][k]
                     if (rel or rel2) and not ctx.violations and not any(p[0] == 'tie' for p in ctx.problems):
                         ctx.problems.append(('tie', 'model and implementation disagree; first: %s' % ((rel or rel2)[0][1][:600])))
+            if conf.get('pool_x'):
+                # BumpPool::try_get* are try_ methods too: they must return, not panic (also on a pool whose mutex was
+                # poisoned by a panicking get), and the pool must stay usable
+                rp = run_pool(ctx, 60 if ctx.tier == 'quick' else 600, 60, 0, [ctx.seed])
+                if rp is not None:
+                    for (b, hdr, xl) in rp['implx']:
+                        if any(k in xl for k in conf['pool_x']):
+                            ctx.violations.append({'kind': 'pool-run', 'build': b, 'run': hdr, 'what_fails': xl, 'steps': 60,
+                                                   'signature': 'pool:%s' % re.sub(r'[0-9]+', 'N', xl)[:80]})
+                    for (b, rc, err) in rp['crashes']:
+                        ctx.violations.append({'kind': 'pool-run', 'build': b, 'what_fails': 'the pool harness crashed (exit status %d)' % rc, 'stderr': err, 'signature': 'pool:crash'})
             if conf.get('colls_x'):
                 rc_ = run_colls(ctx, 6000 if ctx.tier == 'quick' else 60000, [ctx.seed])
                 if rc_ is not None:
